@@ -23,9 +23,13 @@ type c28obj struct {
 	v    interface{}
 }
 
-func c28build(c *Ctx, kind string) (interface{}, error) {
+func c28build(c *Ctx, kind string, networkID base.NetworkID) (interface{}, error) {
+	hNetworkID := networkID
 	node := base.RandomLocalNode()
 	point := base.NewPoint(base.Height(int64(2+c.Intn(1000))), base.Round(uint64(c.Intn(5))))
+	if (kind == "init" || kind == "emptyproposal") && c.Chance(1, 4) {
+		point = base.GenesisPoint // the genesis INIT ballot
+	}
 	h := func() util.Hash { return valuehash.RandomSHA256() }
 	var expels []util.Hash
 	if c.Bool() || kind == "sc" {
@@ -249,7 +253,12 @@ func runC28(c *Ctx) error {
 	}
 	for _, kind := range kinds {
 		for n := 0; n < per; n++ {
-			obj, err := c28build(c, kind)
+			// short and long network ids (the limit is 300 bytes)
+			hNetworkID := hNetworkID
+			if n%2 == 1 {
+				hNetworkID = base.NetworkID("verif-network-with-a-long-identifier-0123456789-abcdefghij-" + fmt.Sprint(n%7))
+			}
+			obj, err := c28build(c, kind, hNetworkID)
 			if err != nil {
 				return err
 			}
@@ -261,14 +270,21 @@ func runC28(c *Ctx) error {
 				return fmt.Errorf("fresh %s object does not validate: %s", kind, how)
 			}
 			c.Nontrivial(string(b))
-			// another network id
-			detN, _ := c28verdict(enc, b, base.NetworkID("other-network"))
-			if n == 0 {
-				c.Case("netid "+kind, b01(detN))
+			// other network ids: unrelated, the same with a trailing zero byte, the same up to the last byte, a prefix
+			others := []base.NetworkID{base.NetworkID("other-network"), append(append(base.NetworkID{}, hNetworkID...), 0),
+				append(append(base.NetworkID{}, hNetworkID[:len(hNetworkID)-1]...), hNetworkID[len(hNetworkID)-1]^1),
+				append(base.NetworkID{}, hNetworkID[:len(hNetworkID)-1]...)}
+			detN := true
+			for _, o := range others {
+				d, _ := c28verdict(enc, b, o)
+				c.Eval(1)
+				if !d {
+					detN = false
+					c.Violation("C28:network-id-not-bound", fmt.Sprintf("%s signed under network id %q validates under %q", kind, string(hNetworkID), string(o)), map[string]interface{}{"kind": kind, "json": string(b)})
+				}
 			}
-			c.Eval(1)
-			if !detN {
-				c.Violation("C28:network-id-not-bound", kind+" validates under another network id", map[string]interface{}{"kind": kind, "json": string(b)})
+			if n < 2 {
+				c.Case("netid "+kind, b01(detN))
 			}
 			var tree interface{}
 			if err := json.Unmarshal(b, &tree); err != nil {
